@@ -84,7 +84,10 @@ class StreamTransport(Transport):
                 f"Failed reading from stream transport: {err}",
             ) from err
 
-        return read.decode()
+        try:
+            return read.decode()
+        except UnicodeDecodeError as err:
+            raise TransportReadError(err, read) from err
 
     async def write(self, decoded_message: str) -> None:
         """Write a decoded message to the transport."""
